@@ -55,6 +55,23 @@ pub fn replay(input: &str, out: &mut Out) {
             if w != exp {
                 return Err(format!("writer emitted {:02x?}, Der.tla says {:02x?}", w, exp));
             }
+            // ---- the same call into a sink that accepts at most n octets per write call (a socket, a pipe): same octets
+            for n in 1..=2usize {
+                let mut s = Sink { data: Vec::new(), n };
+                let wr = match k {
+                    "len" => s.write_length(v as u64),
+                    "tag" => s.write_identifier(tag_of(a, b)),
+                    "i64" => s.write_integer_i64(v as i64),
+                    "u64" | "enum" => s.write_integer_u64(v as u64),
+                    _ => unreachable!(),
+                };
+                if let Err(e) = wr {
+                    return Err(format!("writer failed on a sink accepting {} octets per call: {:?}", n, e));
+                }
+                if s.data != exp {
+                    return Err(format!("writer emitted {:02x?} into a sink accepting {} octets per call, Der.tla says {:02x?}", s.data, n, exp));
+                }
+            }
             // ---- read back, followed by a sentinel octet: exactly the written bytes must be consumed
             let mut bytes = w.clone();
             bytes.push(0x5A);
@@ -103,6 +120,23 @@ pub fn replay(input: &str, out: &mut Out) {
         }
     }
     out.line(&json!({"summary": true, "cases": n, "mismatches": bad}));
+}
+
+/// A sink that accepts at most `n` octets per write call.
+struct Sink {
+    data: Vec<u8>,
+    n: usize,
+}
+
+impl std::io::Write for Sink {
+    fn write(&mut self, buf: &[u8]) -> std::io::Result<usize> {
+        let k = buf.len().min(self.n);
+        self.data.extend_from_slice(&buf[..k]);
+        Ok(k)
+    }
+    fn flush(&mut self) -> std::io::Result<()> {
+        Ok(())
+    }
 }
 
 /// A source that hands out its octets in pieces of at most `n` per read call.
